@@ -150,6 +150,27 @@ def run_program(tier, idx, prog=None, plan=None, seed=None):
                     rec['can'] = sk.canonical_binding(sig, ba)
                 except (TypeError, AttributeError):
                     rec['can'] = None
+                # --- validate / isvalid (C19): verdict, and the function must not have been called
+                from klepto._inspect import isvalid, validate
+                n0 = len(sk.CALLS)
+                try: iv = bool(isvalid(f, *a, **k))
+                except Exception as e: iv = 'EXC:' + exc_name(e)
+                try:
+                    validate(f, *a, **k); vv = True
+                except TypeError: vv = False
+                except Exception as e: vv = 'EXC:' + exc_name(e)
+                rec['isvalid'], rec['validate'], rec['called'] = iv, vv, len(sk.CALLS) - n0
+                rec['really_valid'] = rec['bind'] is not None
+                rec['validate_line'] = dict(call, op='validate')
+                if iv != rec['really_valid'] or vv != rec['really_valid'] or rec['called']:
+                    kwonly_involved = prog['nkw'] > 0
+                    pfix = prog['kind'].startswith('partial') and prog['p_npos'] > (prog['npos'] - prog['ndef']) and not prog['varargs']
+                    viol.append(dict(prop='C19', sig=dict(kind='called-the-function' if rec['called'] else 'wrong-verdict', kwonly=kwonly_involved,
+                                                          partial_fixes_default=bool(pfix), partial_method=prog['kind'] == 'partial_method',
+                                                          partial_kw=prog['kind'].startswith('partial') and prog['p_kw'],
+                                                          says=str(iv), really=rec['really_valid']),
+                                     msg='isvalid=%r validate=%r but binding %s; called=%d; call %r %r' % (iv, vv, 'succeeds' if rec['really_valid'] else 'fails', rec['called'], rec['args'], rec['kw']),
+                                     item=dict(ci=ci)))
                 rec['bind_line'] = dict(op='bind', args=call['args'], kwds=call['kwds'], selfLike=False, **{'self': I(inst) if inst is not None else 0})
                 # --- keymaps
                 rec['keys'] = []
@@ -329,6 +350,7 @@ def analyse(prop, progs):
         for ri, rec in enumerate(p['recs']):
             lines.append(json.dumps(rec['keygen_line'])); index.append((pi, ri, 'keygen', None))
             lines.append(json.dumps(rec['bind_line'])); index.append((pi, ri, 'bind', None))
+            lines.append(json.dumps(rec['validate_line'])); index.append((pi, ri, 'validate', None))
             for ki, ent in enumerate(rec['keys']):
                 lines.append(json.dumps(ent['line'])); index.append((pi, ri, 'key', ki))
     outs = run_driver(lines) if lines else []
@@ -336,7 +358,7 @@ def analyse(prop, progs):
     pos = 0; mo = []
     for p in progs:
         if outs[pos] != 'ok': raise NoVerdict('driver rejected keys cfg: %r' % (outs[pos],))
-        n = sum(2 + len(r['keys']) for r in p['recs'])
+        n = sum(3 + len(r['keys']) for r in p['recs'])
         mo += outs[pos + 1:pos + 1 + n]; pos += 1 + n
     divs = []
     seen = set()
@@ -351,6 +373,9 @@ def analyse(prop, progs):
             ign_names = bool(rec['ign'])   # NULL entries are inserted in *set* iteration order
             same = impl['va'] == m['va'] and sorted(impl['kw']) == sorted(m['kw']) and (ign_names or impl['kw'] == m['kw'])
             if not same: d = dict(what='_keygen', impl=impl, model=m)
+        elif what == 'validate':
+            if rec['validate'] != m['valid']:
+                d = dict(what='validate', impl=rec['validate'], model=m['valid'])
         elif what == 'bind':
             impl = rec['bind']
             mm = None if m is None else dict(named=sorted(m['named']), extraPos=m['extraPos'], extraKw=sorted(m['extraKw']))
@@ -378,7 +403,8 @@ def analyse(prop, progs):
 
 
 PROP_DIV = {'C09': ('_keygen', 'raw key', 'encoded key', 'bind(spec) vs inspect.signature.bind'), 'C10': ('_keygen', 'raw key', 'encoded key'),
-            'C11': ('_keygen', 'raw key', 'encoded key'), 'C17': ('raw key', 'encoded key'), 'C18': ('_keygen',)}
+            'C11': ('_keygen', 'raw key', 'encoded key'), 'C17': ('raw key', 'encoded key'), 'C18': ('_keygen',),
+            'C19': ('validate', 'bind(spec) vs inspect.signature.bind')}
 
 
 def explore(prop, tier, n=None, offset=0):
